@@ -127,6 +127,7 @@ type Machine struct {
 	envCache    map[string]Value
 	inBase      bool
 	inCallback  bool
+	sched       *SchedState
 	violations  []Violation
 	cfg         *JobCfg
 	stats       *Stats
@@ -840,7 +841,7 @@ func (m *Machine) deref(p *Term, n int, write bool, what string) (*Block, int) {
 		if b.published {
 			m.violate("monitor", fmt.Sprintf("C08 store to memory already published through an atomic pointer (%s, offset %d): readers may observe it", b.name, addr-b.base), nil)
 		}
-		if b.guard != 0 && !m.mutexes[b.guard] {
+		if b.guard != 0 && !m.holds(b.guard) {
 			m.violate("monitor", fmt.Sprintf("C08 write to lock-protected shared state (%s) without holding its mutex", b.name), nil)
 		}
 		if b.readonly {
@@ -850,6 +851,9 @@ func (m *Machine) deref(p *Term, n int, write bool, what string) (*Block, int) {
 		b = m.wblock(b)
 	} else if b.garbage {
 		b = m.wblock(b)
+	}
+	if m.sched != nil {
+		m.raceAccess(addr, n, write, what)
 	}
 	return b, int(addr - b.base)
 }
